@@ -380,17 +380,24 @@ func (m *monitor) setBroken(s string) {
 	m.mu.Unlock()
 }
 
-// bisect replays a failed batch one request at a time on fresh drivers (with
-// full ASan stack collection) so that every request gets either a verdict or a
-// crash report of its own.
+// bisect replays a failed batch on fresh drivers (with full ASan stack
+// collection), first in small sub-batches and, inside the sub-batch in which
+// the driver dies, one request at a time, so that every request gets either a
+// verdict or a crash report of its own.
 func (m *monitor) bisect(qs []query) {
 	var d *driver
-	for i := range qs {
+	defer func() {
+		if d != nil {
+			d.stop()
+		}
+	}()
+	i, single := 0, 0
+	for i < len(qs) {
 		m.mu.Lock()
 		stop := m.crashes >= 6 || m.broken != ""
 		m.mu.Unlock()
 		if stop {
-			break
+			return
 		}
 		if d == nil {
 			var err error
@@ -399,17 +406,34 @@ func (m *monitor) bisect(qs []query) {
 				return
 			}
 		}
-		resp, err := d.exchange(qs[i : i+1])
+		step := 64
+		if single > 0 {
+			step = 1
+		}
+		j := i + step
+		if j > len(qs) {
+			j = len(qs)
+		}
+		resp, err := d.exchange(qs[i:j])
+		m.judgeAll(qs[i:i+len(resp)], resp) // answers received before the driver died are valid
 		if err == nil {
-			m.judgeAll(qs[i:i+1], resp)
+			i = j
+			if single > 0 {
+				single--
+			}
 			continue
 		}
 		werr := d.cmd.Wait()
-		m.crash(qs[i], fmt.Sprintf("%v (%v)", err, werr), d.stderr.String())
+		stderr := d.stderr.String()
 		d = nil
-	}
-	if d != nil {
-		d.stop()
+		i += len(resp)
+		if step == 1 {
+			m.crash(qs[i], fmt.Sprintf("%v (%v)", err, werr), stderr)
+			i++
+			single--
+		} else {
+			single = j - i
+		}
 	}
 }
 
